@@ -3,6 +3,7 @@ C15 - decorated generators keep their own action context and stay transparent.
 """
 
 import contextvars
+import threading
 import gc
 import sys
 
@@ -23,7 +24,8 @@ RULE = (
     "yields, try/except around yields that catches thrown exceptions and carries on, `return v`, `yield from` a nested "
     "decorated generator), each wrapped with eliot_friendly_generator_function; a generated driver script of up to 14 "
     "steps, each choosing a generator, an operation (next, send(v), throw(E), close()) and the driver's own surrounding "
-    "context (none, action A, action B, A>B). Oracles: (1) inside every body at every step current_action() IS the top "
+    "context (none, action A, action B, A>B) and how the step is executed (directly, inside a copy of the driver's "
+    "contextvars.Context, or on another thread inside such a copy). Oracles: (1) inside every body at every step current_action() IS the top "
     "of that generator's own stack (base: the action current where it was first resumed); (2) after every driver step "
     "the driver's current_action() is what it was before; (3) differential transparency: the undecorated bodies driven "
     "by the same script produce the identical trace of yielded objects (identity), values received inside, exceptions "
@@ -176,7 +178,7 @@ def drive(case, decorated):
             fn = make_genfn(env, "g%d" % i, body, holder)
             gens.append([fn, None, holder])
         for step in case["script"]:
-            gi, op, arg, ctx = step
+            gi, op, arg, ctx = step[:4]
             gi %= len(gens)
             entry = gens[gi]
             cms = []
@@ -191,43 +193,66 @@ def drive(case, decorated):
             for cm in cms:
                 cm.__enter__()
             try:
-                before = current_action()
-                if entry[1] is None:
-                    entry[1] = entry[0]()
-                g = entry[1]
-                who = "g%d" % gi
-                try:
-                    if op == "next":
-                        out = next(g)
-                        env.trace.append((who, "yielded", VALS.index(out) if any(out is v for v in VALS) else ("?", repr(out))))
-                    elif op == "send":
-                        v = VALS[arg % len(VALS)]
+                def do_step(step=step, gi=gi, op=op, arg=arg, entry=entry):
+                    before = current_action()
+                    if entry[1] is None:
+                        entry[1] = entry[0]()
+                    g = entry[1]
+                    who = "g%d" % gi
+                    try:
+                        if op == "next":
+                            out = next(g)
+                            env.trace.append((who, "yielded", VALS.index(out) if any(out is v for v in VALS) else ("?", repr(out))))
+                        elif op == "send":
+                            v = VALS[arg % len(VALS)]
+                            try:
+                                out = g.send(v)
+                            except TypeError as e:
+                                if "just-started" in str(e):
+                                    env.trace.append((who, "send-before-start"))
+                                    return
+                                raise
+                            env.trace.append((who, "yielded", VALS.index(out) if any(out is v2 for v2 in VALS) else ("?", repr(out))))
+                        elif op == "throw":
+                            e = EXCS[arg % len(EXCS)]
+                            out = g.throw(e)
+                            env.trace.append((who, "yielded", VALS.index(out) if any(out is v2 for v2 in VALS) else ("?", repr(out))))
+                        else:
+                            r = g.close()
+                            env.trace.append((who, "closed", r))
+                    except StopIteration as s:
+                        val = s.value
+                        env.trace.append((who, "stop", VALS.index(val) if any(val is v for v in VALS) else ("?", repr(val))))
+                    except BaseException as e:
+                        env.trace.append((who, "raised", type(e).__name__, EXCS.index(e) if any(e is x for x in EXCS) else -1))
+                    if decorated and entry[2][0] != "unset" and len(entry) == 3:
+                        entry.append("validated")
+                        if entry[2][0] is not before:
+                            env.errors.append("generator g%d started under %s but its base context is %s" % (gi, conc._desc(before), conc._desc(entry[2][0])))
+                    if decorated and current_action() is not before:
+                        env.errors.append("driver step %r changed the driver's current_action() from %s to %s" % (step, conc._desc(before), conc._desc(current_action())))
+
+                via = step[4] if (decorated and len(step) > 4) else 0
+                if via == 0:
+                    do_step()
+                elif via == 1:
+                    # the same driver context, but another contextvars.Context object for this resumption
+                    contextvars.copy_context().run(do_step)
+                else:
+                    # ... and on another thread
+                    box = []
+
+                    def in_thread(ctx_=contextvars.copy_context()):
                         try:
-                            out = g.send(v)
-                        except TypeError as e:
-                            if "just-started" in str(e):
-                                env.trace.append((who, "send-before-start"))
-                                continue
-                            raise
-                        env.trace.append((who, "yielded", VALS.index(out) if any(out is v2 for v2 in VALS) else ("?", repr(out))))
-                    elif op == "throw":
-                        e = EXCS[arg % len(EXCS)]
-                        out = g.throw(e)
-                        env.trace.append((who, "yielded", VALS.index(out) if any(out is v2 for v2 in VALS) else ("?", repr(out))))
-                    else:
-                        r = g.close()
-                        env.trace.append((who, "closed", r))
-                except StopIteration as s:
-                    val = s.value
-                    env.trace.append((who, "stop", VALS.index(val) if any(val is v for v in VALS) else ("?", repr(val))))
-                except BaseException as e:
-                    env.trace.append((who, "raised", type(e).__name__, EXCS.index(e) if any(e is x for x in EXCS) else -1))
-                if decorated and entry[2][0] != "unset" and len(entry) == 3:
-                    entry.append("validated")
-                    if entry[2][0] is not before:
-                        env.errors.append("generator g%d started under %s but its base context is %s" % (gi, conc._desc(before), conc._desc(entry[2][0])))
-                if decorated and current_action() is not before:
-                    env.errors.append("driver step %r changed the driver's current_action() from %s to %s" % (step, conc._desc(before), conc._desc(current_action())))
+                            ctx_.run(do_step)
+                        except BaseException as e:  # noqa
+                            box.append(e)
+
+                    th = threading.Thread(target=in_thread)
+                    th.start()
+                    th.join()
+                    if box:
+                        raise box[0]
             finally:
                 for cm in reversed(cms):
                     cm.__exit__(None, None, None)
@@ -271,10 +296,11 @@ def check(case):
     got = conc.observed_shape(msgs)
     want = sorted((conc.model_shape(r) for r in env_d.roots), key=canon)
     require(canon(got) == canon(want), "forest-differs-from-model", lambda: "observed %s\nexpected %s" % (canon(got)[:1500], canon(want)[:1500]))
+    vias = set((s[4] if len(s) > 4 else 0) for s in case["script"])
     ops = set(s[1] for s in case["script"])
     ctxs = set(s[3] for s in case["script"])
     gens_used = set(s[0] % len(case["gens"]) for s in case["script"])
-    return {"ops": sorted(ops), "ctxs": len(ctxs), "gens_used": len(gens_used), "trace": len(env_d.trace)}
+    return {"ops": sorted(ops), "ctxs": len(ctxs), "gens_used": len(gens_used), "trace": len(env_d.trace), "vias": sorted(vias)}
 
 
 def _first_diff(a, b):
@@ -290,6 +316,7 @@ def holds_action(body):
 
 def classify(case, info):
     labels = ["gens=%d" % len(case["gens"]), "driver-contexts=%d" % info["ctxs"]] + ["op:" + o for o in info["ops"]]
+    labels += ["resumed-via:" + {0: "same-Context-object", 1: "copied-Context", 2: "other-thread"}[v] for v in info.get("vias", [])]
     text = canon(case["gens"])
     for k in ("yieldfrom", "try", "return", "action"):
         if '"%s"' % k in text:
@@ -330,6 +357,7 @@ def strategy():
         st.sampled_from(["next", "next", "next", "send", "send", "throw", "close"]),
         st.integers(0, 7),
         st.integers(0, 3),
+        st.sampled_from([0, 0, 0, 1, 1, 2]),
     ).map(list)
     return st.integers(1, 3).flatmap(
         lambda n: st.builds(
